@@ -158,7 +158,8 @@ type vfC03Case struct {
 	Policy    int      `json:"policy"`
 	Anonymous bool     `json:"anonymous"`
 	Base      string   `json:"base"`
-	Mut       []string `json:"mut"` // "field=op"
+	Mut       []string `json:"mut"`                 // "field=op"
+	Congested bool     `json:"congested,omitempty"` // the validation pipeline is full while the candidate arrives
 }
 
 var vfC03Fields = []string{"data", "topic", "from", "seqno", "key", "sig", "unknown"}
@@ -391,6 +392,9 @@ func vfC03Policies() []MessageSignaturePolicy {
 	return []MessageSignaturePolicy{StrictSign, StrictNoSign, LaxSign, LaxNoSign}
 }
 
+// vfC03Congested: the group runs against a node whose validation pipeline is full (set around a call of RunGroup).
+var vfC03Congested bool
+
 func vfC03RunGroup(r *vfRun, policy MessageSignaturePolicy, anon bool, base string, muts [][]string) {
 	keys := vfC03KeySet()
 	var k *vfKeyed
@@ -401,7 +405,34 @@ func vfC03RunGroup(r *vfRun, policy MessageSignaturePolicy, anon bool, base stri
 		}
 	}
 	p := vfBubble(r.t, func() {
-		node := vfC03NewNode(policy, anon)
+		var node *vfC03Node
+		if vfC03Congested {
+			// one validation worker parked in a validator of topic "u" and a queue of one, already taken: whatever
+			// arrives now finds the pipeline full (and must be dropped, never waved through unverified)
+			park := make(chan struct{})
+			defer close(park)
+			node = vfC03NewNode(policy, anon, WithValidateQueueSize(1))
+			if err := node.n.ps.RegisterTopicValidator("u", func(ctx context.Context, _ peer.ID, _ *Message) ValidationResult {
+				select {
+				case <-park:
+				case <-ctx.Done():
+				}
+				return ValidationIgnore
+			}, WithValidatorInline(true)); err != nil {
+				panic(err)
+			}
+			for i := 0; i < 2; i++ {
+				filler := vfC03Honest(keys[0], "u", byte(100+i), policy&msgSigning != 0 || policy == LaxNoSign)
+				if anon {
+					filler = &pb.Message{Data: []byte(fmt.Sprintf("filler-%d", i)), Topic: vfStrp("u")}
+				}
+				node.b.send(vfPubRPC(filler))
+				synctest.Wait()
+			}
+			r.count("groups_with_a_full_validation_pipeline", 1)
+		} else {
+			node = vfC03NewNode(policy, anon)
+		}
 		honest := vfC03Honest(k, "t", 1, signed)
 		other := vfC03Honest(keys[(indexOfKey(keys, k)+1)%len(keys)], "u", 2, true)
 		wrong := keys[(indexOfKey(keys, k)+2)%len(keys)].priv
@@ -425,7 +456,7 @@ func vfC03RunGroup(r *vfRun, policy MessageSignaturePolicy, anon bool, base stri
 				r.res.Executions++
 				continue // not a topic the node follows: never looked at
 			}
-			cs := vfC03Case{Policy: int(policy), Anonymous: anon, Base: base, Mut: mu}
+			cs := vfC03Case{Policy: int(policy), Anonymous: anon, Base: base, Mut: mu, Congested: vfC03Congested}
 			r.mark(cs)
 			d, f := node.feed(cand)
 			r.res.Executions++
@@ -434,7 +465,7 @@ func vfC03RunGroup(r *vfRun, policy MessageSignaturePolicy, anon bool, base stri
 			if (d || f) && !ok {
 				r.violation("c03:accepted-inauthentic:"+strings.SplitN(why, ":", 2)[0], fmt.Sprintf("policy=%d anonymous=%v base=%s tampering=%v: message was delivered=%v forwarded=%v but %s", policy, anon, base, mu, d, f, why), cs)
 			}
-			if len(mu) == 0 && ok && !d {
+			if len(mu) == 0 && ok && !d && !vfC03Congested {
 				r.violation("c03:honest-rejected", fmt.Sprintf("policy=%d anonymous=%v base=%s: an untampered message the policy admits was not delivered", policy, anon, base), cs)
 			}
 			if ok != (d || f) {
@@ -587,6 +618,12 @@ func init() {
 							return
 						}
 						vfC03RunGroup(r, policy, anon, base, muts)
+						if base == bases[0] {
+							// the same candidates against a node whose validation pipeline is full
+							vfC03Congested = true
+							vfC03RunGroup(r, policy, anon, base, muts)
+							vfC03Congested = false
+						}
 						if len(r.res.Samples) < 3 {
 							r.sample(vfC03Case{Policy: int(policy), Anonymous: anon, Base: base, Mut: muts[len(muts)/2]})
 						}
@@ -615,7 +652,9 @@ func init() {
 				}
 				return
 			}
+			vfC03Congested = c.Congested
 			vfC03RunGroup(r, MessageSignaturePolicy(c.Policy), c.Anonymous, c.Base, [][]string{c.Mut})
+			vfC03Congested = false
 		},
 	})
 }
